@@ -39,13 +39,16 @@ def repo_fingerprint():
     _fp_cache['fp'] = h.hexdigest()
     return _fp_cache['fp']
 
-def engine_fingerprint():
-    if 'efp' in _fp_cache: return _fp_cache['efp']
+def engine_fingerprint(src=None):
+    """hash of the harness source plus every engine header (a harness is rebuilt when it or a header it may include changes)"""
+    k = 'efp' + str(src)
+    if k in _fp_cache: return _fp_cache[k]
     h = hashlib.sha1()
     for f in sorted(os.listdir(ENGINE)):
-        h.update(open(os.path.join(ENGINE, f), 'rb').read())
-    _fp_cache['efp'] = h.hexdigest()
-    return _fp_cache['efp']
+        if f.endswith('.hpp'): h.update(open(os.path.join(ENGINE, f), 'rb').read())
+    if src: h.update(open(src, 'rb').read())
+    _fp_cache[k] = h.hexdigest()
+    return _fp_cache[k]
 
 # --------------------------------------------------------------------------- amalgamation (tools/join.py re-implemented in memory, same rules)
 _COMMENT = re.compile(r"(?:\s*\/\/ COMMON)|(?:\s*\/\/ SPECIFIC)|(?:\s*\/\/\/\/)|(?:\s*\/\/--)|(?:\s*\/\/ -)")
@@ -124,7 +127,7 @@ def compile_cmd(source, out, defs, variant='plain', header='shipped', std='c++17
 def build(source, defs, variant='plain', header='shipped', std='c++17', extra=None, access=True, tag=''):
     """compile one harness translation unit against the CURRENT working tree of the repository; cached by content hash"""
     src = source if os.path.isabs(source) else os.path.join(ENGINE, source)
-    key = hashlib.sha1(json.dumps([repo_fingerprint(), engine_fingerprint(), src, sorted(defs), variant, header, std, extra, access, REPO]).encode()).hexdigest()[:20]
+    key = hashlib.sha1(json.dumps([repo_fingerprint(), engine_fingerprint(src), src, sorted(defs), variant, header, std, extra, access, REPO]).encode()).hexdigest()[:20]
     os.makedirs(BUILD, exist_ok=True)
     out = os.path.join(BUILD, 'h_' + key)
     if os.path.exists(out): return out
